@@ -59,6 +59,25 @@ Theorem C11_early_reply : forall s c k, reachable s -> cp s c = CMade k -> intab
 Proof. intros s c k R. exact (early_reply_lands s c k (inv_reachable s R)). Qed.
 Print Assumptions C11_early_reply.
 
+(* "within bounded time", as a bound on steps: once the connection is lost no schedule is longer
+   than [measure s] labels (an explicit linear function of what is still pending: 10 per call not yet
+   made, at most 5 per call in progress, 3 per occupied handler slot, 2 per closer goroutine, 3 per
+   queued event, ...), so a terminal state is reached within that many steps whatever the scheduler
+   does; the initial measure of a scenario is 10n + 5m + 4d + 6; a call takes at most 3 steps of its
+   own after MakeHandler *)
+Theorem C11_bounded : forall tr s s', reachable s -> lost s = true -> run tr s = Some s' ->
+  length tr + measure s' <= measure s.
+Proof. intros tr s s' R. exact (lost_run_bounded tr s s' (inv_reachable s R) (reachable_bounded s R)). Qed.
+Print Assumptions C11_bounded.
+Theorem C11_measure_init : forall n m d, measure (init n m d) = 10 * n + 5 * m + 4 * d + 6.
+Proof. exact measure_init. Qed.
+Print Assumptions C11_measure_init.
+Theorem C11_call_own_steps : forall s l s' c, step s l = Some s' ->
+  (l = LCallSend c \/ l = LCallSendFail c \/ l = LCallRemove c \/ (exists b, l = LCallSel c b) \/ l = LCallCancelSend c) ->
+  callrank (cp s' c) < callrank (cp s c) /\ callrank (cp s c) <= 5.
+Proof. exact call_own_steps. Qed.
+Print Assumptions C11_call_own_steps.
+
 (* the hypotheses are met by a concrete run: two calls, one subscription, one callback; the reply
    to call 0 is dispatched before either Send has returned (early reply), an event is queued, the
    connection dies; afterwards call 0 has its reply, call 1 an error, the events channel is closed
